@@ -44,6 +44,13 @@ fn main() {
                 writeln!(w, "{}", l).unwrap();
             }
         }
+        Some("expand") => {
+            // vharness expand E1 <block>: the explicit cases behind one sweep digest
+            let block: u64 = args[3].parse().expect("block");
+            for l in run::e1_expand(block) {
+                println!("{}", l);
+            }
+        }
         Some("facts") => {
             // observed constants of the cache format: magic bytes and version word of a written file
             let mut buf = Vec::new();
